@@ -150,10 +150,9 @@ func VH_C17_Create() {
 	// symbolic creation request: fresh id or the id of a live table, 0..3 auto-join players
 	// (ids and seats symbolic: duplicates, seat collisions, more players than seats) — the
 	// engine refuses some of these
-	tid := "tnew"
-	if verifrt.Bool("create.sameid") {
-		tid = "t0"
-	}
+	// fresh ids include ones with blanks / line breaks around them: an id is an opaque key
+	tid := vhPick("create.tid", []string{"tnew", " tnew", "tnew\n", "t0"})
+	fresh := tid != "t0"
 	jn := verifrt.IntRange("create.jn", 0, 3)
 	jps := []JoinPlayer{}
 	for i := 0; i < jn; i++ {
@@ -164,17 +163,25 @@ func VH_C17_Create() {
 	if err != nil {
 		verifrt.Reach("create refused")
 		verifrt.Assert(t == nil, "refused creation returns no table")
-		_, e1 := m.GetTableEngine("tnew")
-		verifrt.Assert(e1 == ErrManagerTableNotFound, "a refused creation registers nothing: the id stays not-found")
+		for _, id := range []string{"tnew", " tnew", "tnew\n"} {
+			_, e1 := m.GetTableEngine(id)
+			verifrt.Assert(e1 == ErrManagerTableNotFound, "a refused creation registers nothing: the id stays not-found")
+		}
 		o, e2 := m.GetTableEngine("t0")
 		verifrt.Assert(e2 == nil && o == TableEngine(other) && len(other.calls) == 0, "a refused creation leaves the live table of that id (and every other) in place")
 		verifrt.Reach("end")
 		return
 	}
-	verifrt.Assume(tid == "tnew") // creating over a live id is a caller error; nothing is claimed about it
-	verifrt.Assert(err == nil && t != nil && t.ID == "tnew", "create succeeds")
-	got, err2 := m.GetTableEngine("tnew")
-	verifrt.Assert(err2 == nil && got != nil && got.GetTable() == t, "new engine registered under the table id")
+	verifrt.Assume(fresh) // creating over a live id is a caller error; nothing is claimed about it
+	verifrt.Assert(err == nil && t != nil && t.ID == tid, "create succeeds and keeps the id it was given")
+	got, err2 := m.GetTableEngine(tid)
+	verifrt.Assert(err2 == nil && got != nil && got.GetTable() == t, "new engine registered under exactly the id it was created with")
+	for _, id := range []string{"tnew", " tnew", "tnew\n"} {
+		if id != tid {
+			_, e := m.GetTableEngine(id)
+			verifrt.Assert(e == ErrManagerTableNotFound, "an id that was never created is not found, however similar it looks")
+		}
+	}
 	o, err3 := m.GetTableEngine("t0")
 	verifrt.Assert(err3 == nil && o == TableEngine(other) && len(other.calls) == 0, "bystander table untouched")
 	te := got.(*tableEngine)
